@@ -586,7 +586,7 @@ def execute(tpl, dev, role=None, banner=None, probe_cfg=None):
         p.close()
         s.quiesce()
 
-    ex, hung = CF.run(body, horizon=45.0, step_budget=30_000, wd=1.5)
+    ex, hung = CF.run(body, horizon=45.0, step_budget=30_000, wd=6.0)
     out["outcome"] = ex.outcome
     out["error"] = repr(ex.error) if ex.error is not None else None
     out["hung"] = hung
@@ -760,7 +760,7 @@ def main(tier):
                      "default algorithms except the kex family under test; ed25519 host key",
                      "victim timeouts shortened (auth/channel 5 s, handshake 8 s virtual); a victim API still blocked "
                      "after 45 virtual seconds is recorded as a hang, not judged (C13)",
-                     "a thread spinning for 1.5 CPU-seconds without a scheduling point is interrupted and reported "
+                     "a thread spinning for 6 CPU-seconds without a scheduling point is interrupted and reported "
                      "as HangDetected at its site"])
     tpls = templates()
     ncfg = probe_templates(tpls)
